@@ -91,11 +91,15 @@ Aux:
 			for ai < len(args) {
 				a := args[ai]
 				if sym, ok := a.(Symbol); ok && 0 < len(sym) && sym[0] == ':' {
-					sym = sym[1:]
+					// Only a keyword that names a &key parameter ends the
+					// rest, not one that names an &aux parameter.
 					for j := i + 1; j < len(lam.Doc.Args); j++ {
-						if string(sym) == lam.Doc.Args[j].Name {
-							mode = keyMode
-							break Mode
+						if strings.EqualFold(lam.Doc.Args[j].Name, AmpKey) {
+							if lam.Doc.keyParam(j+1, string(sym[1:])) {
+								mode = keyMode
+								break Mode
+							}
+							break
 						}
 					}
 				}
